@@ -148,6 +148,9 @@ func ResponseEncoder(ctx context.Context, w http.ResponseWriter) Encoder {
 				default:
 					enc = json.NewEncoder(w)
 				}
+			} else {
+				// malformed content type: default to JSON
+				enc, mt = json.NewEncoder(w), "application/json"
 			}
 			SetContentType(w, mt)
 			return enc
